@@ -35,6 +35,8 @@ type Thread struct {
 	lastObj  any
 	lastKind Kind
 	repeat   int
+	// free-running mode (race pass): closed when the goroutine has finished
+	plainDone chan struct{}
 }
 
 type Kind uint8
@@ -391,12 +393,14 @@ func GoNamed(name string, f func()) *Thread {
 	t := Self()
 	if t == nil {
 		// free-running mode (race pass): a real goroutine that Join/WaitFor wait for
+		nt := &Thread{ID: -1, Name: name, plainDone: make(chan struct{})}
 		plainWG.Add(1)
 		go func() {
 			defer plainWG.Done()
+			defer close(nt.plainDone)
 			f()
 		}()
-		return nil
+		return nt
 	}
 	e := ex
 	nt := &Thread{ID: len(e.threads), Name: name, wake: make(chan struct{}, 1), spin: -1}
@@ -418,7 +422,17 @@ func GoNamed(name string, f func()) *Thread {
 func WaitFor(ts ...*Thread) {
 	t := Self()
 	if t == nil {
-		plainWG.Wait()
+		// free-running mode: wait for exactly the given goroutines (the caller may itself be one
+		// that GoNamed started, so waiting for all of them would wait for itself)
+		if len(ts) == 0 {
+			plainWG.Wait()
+			return
+		}
+		for _, x := range ts {
+			if x != nil && x.plainDone != nil {
+				<-x.plainDone
+			}
+		}
 		return
 	}
 	e := ex
@@ -529,6 +543,12 @@ type Opts struct {
 	Shard, NShards int
 	MaxExecutions  int64
 	Deadline       time.Time
+	// DeepFirst restores plain depth-first order. By default every execution that deviates from the
+	// default schedule at exactly ONE point (one preemption, or one other choice) is run first, in
+	// order of the deviation point, and only then does the search descend below them: when a deadline
+	// cuts the search short, the simplest schedules — including a single preemption late in the
+	// trace — have all been covered. The set of schedules explored to completion is the same.
+	DeepFirst bool
 }
 
 type Result struct {
@@ -554,19 +574,30 @@ func Explore(mk func() func(), opts Opts, check func(tr Trace, choices []int) bo
 		prefix []int
 		expect []PointRec
 		top    bool
+		seen   bool // already run and checked in the shallow pass: re-run only to expand it
 	}
-	stack := []item{{nil, nil, true}}
+	stack := []item{{nil, nil, true, false}}
+	var shallow []item
 	topAlt := 0
-	for len(stack) > 0 {
+	for len(stack) > 0 || len(shallow) > 0 {
 		if (opts.MaxExecutions > 0 && res.Executions >= opts.MaxExecutions) || (!opts.Deadline.IsZero() && time.Now().After(opts.Deadline)) {
 			res.Complete = false
 			break
 		}
-		it := stack[len(stack)-1]
-		stack = stack[:len(stack)-1]
+		var it item
+		noExpand := false
+		if len(shallow) > 0 {
+			it, shallow = shallow[0], shallow[1:]
+			noExpand = true
+		} else {
+			it = stack[len(stack)-1]
+			stack = stack[:len(stack)-1]
+		}
 		tr := Run(mk(), it.prefix, it.expect, opts.Horizon)
-		res.Executions++
-		res.Points += int64(len(tr.Points))
+		if !it.seen {
+			res.Executions++
+			res.Points += int64(len(tr.Points))
+		}
 		if len(tr.Points) > res.MaxPoints {
 			res.MaxPoints = len(tr.Points)
 		}
@@ -582,12 +613,12 @@ func Explore(mk func() func(), opts Opts, check func(tr Trace, choices []int) bo
 			}
 			continue
 		}
-		if !check(tr, choices) {
+		if !it.seen && !check(tr, choices) {
 			res.Complete = false
 			break
 		}
-		if tr.Fail != "" {
-			continue // do not branch below a failed (aborted) execution
+		if tr.Fail != "" || noExpand {
+			continue // do not branch below a failed (aborted) execution; shallow pass: no descent yet
 		}
 		// which objects are shared in this execution
 		var shared map[int]bool
@@ -643,7 +674,13 @@ func Explore(mk func() func(), opts Opts, check func(tr Trace, choices []int) bo
 					}
 				}
 				np := append(append(make([]int, 0, i+1), choices[:i]...), alt)
-				alts = append(alts, item{np, tr.Points, false})
+				alts = append(alts, item{np, tr.Points, false, false})
+			}
+		}
+		if it.top && !opts.DeepFirst {
+			shallow = append(shallow, alts...)
+			for i := range alts {
+				alts[i].seen = true
 			}
 		}
 		for i := len(alts) - 1; i >= 0; i-- {
